@@ -70,6 +70,7 @@ def replay(ob, r, trace, d):
     head = stubs[:stubs.index('#define ARG(i) nondet_int()')]
     prim = '''
 #include <stdio.h>
+#define NATIVE_REPLAY 1
 static int n_fail;
 #define __CPROVER_assert(c, name) do { if (!(c)) { printf("FAIL %s\\n", name); n_fail++; } } while (0)
 #define __CPROVER_assume(c) do { if (!(c)) { printf("ASSUME-VIOLATED %s\\n", #c); } } while (0)
